@@ -17,18 +17,86 @@ func verifLang(k int) LangVariant {
 	}
 }
 
-// Verif_c06_parse: Parse never panics on any n-byte input.
+// Verif_c06_parse: no entry point panics or runs away on any n-byte input;
+// printing, simplifying and walking whatever tree comes back never panics.
 func Verif_c06_parse() {
 	n := verifParam("n")
 	lang := verifLang(verifParam("lang"))
-	src := verifBytes("src", n)
-	p := NewParser(Variant(lang), KeepComments(verifParam("comments") != 0))
-	var f *File
-	var err error
+	entry := verifParam("entry")
+	src := verifSrc(n)
+	opts := []ParserOption{Variant(lang), KeepComments(verifBool("keepComments"))}
+	if verifParam("recover") != 0 {
+		opts = append(opts, RecoverErrors(1+verifChoice("recoverMax", 3)))
+	}
+	if sn := verifParam("stopat"); sn > 0 {
+		stop := verifBytes("stop", sn)
+		for _, b := range stop {
+			verifAssume(b != ' ' && b != '\t' && b != '\n' && b != '\r' && b != 0)
+		}
+		opts = append(opts, StopAt(string(stop)))
+	}
+	p := NewParser(opts...)
+	var root Node
+	var words []*Word
+	s0 := verifSteps()
 	ok := verifNoPanic(func() {
-		f, err = p.Parse(bytes.NewReader(src), "")
+		switch entry {
+		case 0:
+			f, _ := p.Parse(bytes.NewReader(src), "")
+			if f != nil {
+				root = f
+			}
+		case 1:
+			for range p.StmtsSeq(bytes.NewReader(src)) {
+			}
+		case 2:
+			for w, err := range p.WordsSeq(bytes.NewReader(src)) {
+				if err == nil {
+					words = append(words, w)
+				}
+			}
+		case 3:
+			for range p.InteractiveSeq(bytes.NewReader(src)) {
+			}
+		case 4:
+			w, err := p.Document(bytes.NewReader(src))
+			if w != nil && err == nil {
+				words = append(words, w)
+			}
+		case 5:
+			x, err := p.Arithmetic(bytes.NewReader(src))
+			if x != nil && err == nil { // a partial tree returned next to an error is not a result
+				root = x
+			}
+		}
 	})
-	verifAssert(ok, "Parse panicked")
-	verifAssert((f != nil) != (err != nil) || f != nil, "Parse returned neither tree nor error")
+	verifAssert(ok, "parser entry point panicked")
+	steps := verifSteps() - s0
+	verifAssert(steps <= 60000+40000*(n+1), "parsing took more than the linear step bound")
+	// whatever came back can be printed, simplified and walked
+	if f, isFile := root.(*File); isFile {
+		o := verifPrinterOpts()
+		ok = verifNoPanic(func() {
+			Walk(f, func(Node) bool { return true })
+			var out bytes.Buffer
+			o.printer().Print(&out, f)
+			Simplify(f)
+			out.Reset()
+			o.printer().Print(&out, f)
+		})
+		verifAssert(ok, "Walk/Print/Simplify panicked on a parsed tree")
+		verifReach("printed")
+	} else if root != nil {
+		ok = verifNoPanic(func() { Walk(root, func(Node) bool { return true }) })
+		verifAssert(ok, "Walk panicked on an arithmetic expression")
+	}
+	for _, w := range words {
+		ok = verifNoPanic(func() {
+			var out bytes.Buffer
+			NewPrinter().Print(&out, w)
+			Walk(w, func(Node) bool { return true })
+		})
+		verifAssert(ok, "Print/Walk panicked on a word")
+	}
 	verifReach("end")
 }
